@@ -28,7 +28,7 @@ from harness.lib import coqbuild, mems3, protocol as P, sched as S
 from harness.props import c01
 
 LEVEL = "proof"
-THEOREMS = ["C18_single_init", "C18_pointer_stable", "C18_existing_never_reinitialised", "C18_same_table"]
+THEOREMS = ["C18_single_init", "C18_pointer_stable", "C18_existing_never_reinitialised", "C18_same_table", "C18_skeleton_regenerated"]
 REQ = ["DS.Model.Commit", "DS.Model.Create"]
 MANIFEST_ENTRY = {
     "level_text": "C18 theorems proved in Coq for every interleaving of any number of creators/openers (single initialisation, "
@@ -36,9 +36,9 @@ MANIFEST_ENTRY = {
                   "create_table / load_table / Table() calls and a first appender are scheduled at storage-operation granularity on "
                   "local and CAS-S3 backends from four initial states and trace-validated against the model; an implementation-only "
                   "oracle checks single identity, preservation of an existing table, schema persistence and the no-schema error",
-    "level_note": "trusted: Coq kernel; scheduler harness and projection; recovery modelled as 'newest metadata file' (the code "
+    "level_note": "trusted: Coq kernel; translator/gen_commit.py (skeleton of initialize_table and the failure classes of the pointer creation: C18_skeleton_regenerated); scheduler harness and projection; recovery modelled as 'newest metadata file' (the code "
                   "breaks ties by mtime, then listing order); in-memory S3 as in C08",
-    "technique": "Coq invariant proof over a creation machine + scheduled trace validation",
+    "technique": "Coq invariant proof over a creation machine with translator-regenerated skeleton + scheduled trace validation",
     "design_ref": "DESIGN.md section 5 C18",
 }
 
@@ -426,7 +426,7 @@ def run(ctx) -> None:
                 "granularity x initial state {absent, healthy, pointer lost, v0 only + pointer lost} x {local flock, CAS-S3 with a "
                 "grant-everyone lock}; bounded-preemption enumeration + random; distinct = executed schedule")
     ctx.trusted_base += ["harness/lib/sched.py, mems3.py; harness/props/c18.py projection of storage calls onto creation events"]
-    ctx.proofs(THEOREMS)
+    ctx.proofs(THEOREMS, gen_files=["GenCommit.v"])
     ctx.allow_axioms([])
     quick = ctx.tier == "quick"
     sequential_schema_checks(ctx)
